@@ -126,7 +126,9 @@ Definition nontrivial03 (c : case) : bool :=
   | CLazy xs ws scripts prog steps => Judge.C15.nontrivial15 c
   | CNet _ _ _ _ ns =>
     (* all five transports were used and some query is at a boundary: the root name, or a reply of more than 512 bytes *)
-    forallb (fun t => existsb (fun o => match o with NObs tr _ (Some _) _ => tr =? t | _ => false end) ns) [0; 1; 2; 3; 4]
+    (* ... or at least 8 replies came back on pipelined connections *)
+    (8 <=? count_true (fun o => match o with NObs 2 _ (Some _) _ => true | _ => false end) ns)
+    || forallb (fun t => existsb (fun o => match o with NObs tr _ (Some _) _ => tr =? t | _ => false end) ns) [0; 1; 2; 3; 4]
     && existsb (fun o => match o with
                          | NObs _ q _ rlen =>
                            (512 <? rlen) || match m_question q with qu :: _ => (length (qname qu) <=? 1)%nat | [] => false end
